@@ -750,6 +750,7 @@ def run(res: Results, idx: Index, tier: str) -> None:
         rule_i(res, idx, tier)
     rule_j(res, idx, m)
     rule_k(res, idx, m)
+    rule_l(res, idx, m)
 
 
 # ---------------------------------------------------------------------------------------------- R-C02k
@@ -968,3 +969,33 @@ def rule_h(res: Results, idx: Index, m: Module, tier: str = "quick") -> None:
         res.unresolved("R-C02h", f"{OPT}:{f.node.lineno}", key, f"raises {e.name} on a valid permutation pair", f.qualname)
         return
     res.ok("R-C02h", f"{OPT}:{f.node.lineno}", key, f"sound on all {n} permutation pairs of rank 1..{4 if tier != 'thorough' else 5}", f.qualname)
+
+
+# ---------------------------------------------------------------------------------------------- R-C02l
+def rule_l(res: Results, idx: Index, m: Module) -> None:
+    """Node predicates that classify a node by `op_type in <operator table>` must also require the standard (empty)
+    domain: the call node of an @onnx_function lives in a custom domain and may carry any op_type ("Abs", "Relu" …)
+    while its body is not point-wise at all."""
+    from .c08 import _op_sets
+    res.rule("R-C02l", "operator-table predicates of the optimizer also require the standard ONNX domain", floor=2)
+    sets = _op_sets(m)
+    n = 0
+    for fi in m.funcs.values():
+        if fi.parent_func is not None:
+            continue
+        a = fi.node.args  # type: ignore[attr-defined]
+        if len(a.args) != 1 or not fi.name.startswith("_is_"):
+            continue
+        tests = [c for c in walk_no_nested(fi.node) if isinstance(c, ast.Compare) and any(isinstance(o, (ast.In, ast.NotIn)) for o in c.ops) and "op_type" in src(c.left, 60)
+                 and isinstance(c.comparators[0], ast.Name) and c.comparators[0].id in sets]
+        if not tests:
+            continue
+        n += 1
+        key = f"{OPT}::{fi.qualname}::domain"
+        site = f"{OPT}:{fi.node.lineno}"
+        dom = any((isinstance(x, ast.Attribute) and x.attr == "domain") or (isinstance(x, ast.Constant) and x.value == "domain") or (isinstance(x, ast.Call) and _last(call_name(x)) == "_is_standard_onnx_node") for x in walk_no_nested(fi.node))
+        if dom:
+            res.ok("R-C02l", site, key, "tests the node's domain together with the operator table", fi.qualname)
+        else:
+            res.violation("R-C02l", site, key, f"`{fi.name}` accepts a node by `op_type in {tests[0].comparators[0].id}` without looking at its domain: an @onnx_function call node named like a point-wise operator is folded through as if it were that operator", fi.qualname)
+    res.analysed["operator_table_predicates"] = n
